@@ -115,7 +115,11 @@ def boot(hostname, boot_port=consts.BOOT_PORT,
         struct_data = f.read()
     structs = struct_file.read_struct_file(struct_data)
     sv = structs[b"sv"]
-    sv_overrides.update(kwargs)  # Allow non-explicit keyword arguments for SV
+    # Allow non-explicit keyword arguments for SV. NB: Copy the dictionary
+    # supplied since it may belong to the caller (or be the default argument
+    # which is shared between all calls to this function).
+    sv_overrides = dict(sv_overrides)
+    sv_overrides.update(kwargs)
     sv.update_default_values(**sv_overrides)
     sv.update_default_values(unix_time=int(time.time()),
                              boot_sig=int(time.time()),
